@@ -36,8 +36,8 @@ def decode_step(a: list[int], pos: int):
     nt = a[pos + 1]; pos += 2
     snap["tasks"] = {}
     for t in range(1, nt + 1):
-        st, nc, must, cur, hs = a[pos:pos + 5]; pos += 5
-        snap["tasks"][t] = dict(state=st, ncancel=nc, must=must, cur=cur, hstatus=hs)
+        st, nc, must, cur, hs, hret, hexc = a[pos:pos + 7]; pos += 7
+        snap["tasks"][t] = dict(state=st, ncancel=nc, must=must, cur=cur, hstatus=hs, hret=hret, hexc=hexc)
     ns = a[pos]; pos += 1
     snap["scopes"] = {}
     for c in range(1, ns + 1):
@@ -48,8 +48,8 @@ def decode_step(a: list[int], pos: int):
     ng = a[pos]; pos += 1
     snap["groups"] = {}
     for g in range(1, ng + 1):
-        ntk, nex, fut = a[pos:pos + 3]; pos += 3
-        snap["groups"][g] = dict(ntasks=ntk, nexcs=nex, fut=fut)
+        ntk, nex, fut, exsum = a[pos:pos + 4]; pos += 4
+        snap["groups"][g] = dict(ntasks=ntk, nexcs=nex, fut=fut, exsum=exsum)
     nr = a[pos]; pos += 1
     snap["ready"] = a[pos:pos + nr]; pos += nr
     ntm = a[pos]; pos += 1
@@ -459,6 +459,13 @@ class History:
                     want = 4
                 if tk["hstatus"] != want:
                     self.v("C01", f"step {i}: handle of child {m} reports status {tk['hstatus']} but its coroutine ended with {finished_with[m]} (expected {want})")
+                # return value / exception recorded by the handle match how the coroutine ended
+                if m not in self._dirty_finish and "hret" in tk:
+                    self.flags.add("handle_outcome_checked")
+                    if kind == "ret" and (tk["hret"] != val + 1 or tk["hexc"] != 0):
+                        self.v("C01", f"step {i}: child {m} returned {val} but its handle holds return value {tk['hret'] - 1 if tk['hret'] else None} / exception code sum {tk['hexc']}")
+                    if kind == "exc" and val is not None and (tk["hexc"] != sum(val[1]) or tk["hret"] != 0):
+                        self.v("C01", f"step {i}: child {m} ended with exception leaves {val[1]} but its handle holds exception code sum {tk['hexc']} / return value {tk['hret']}")
         exp = sorted(expected.get(g, []))
         got_all = list(res[2]) if res[0] == "exc" else []
         got = sorted(x for x in got_all if not is_cancel_code(x))
@@ -642,8 +649,8 @@ class History:
             pk = prev["tasks"].get(t)
             if pk is None or tk["state"] != 2 or pk["state"] != 2 or tk["cur"] != pk["cur"] or not tk["cur"]:
                 continue
-            if op[1] == t:
-                continue
+            if op[1] == t and (op[0] < 30 or op[0] in (S.RUNSTEP, S.RUNWAKE, S.NATIVECANCEL)):
+                continue                  # the op acted on t itself (for env ops op[1] is a scope id / tick length)
             c1, c0 = ref_eff_cancelled(snap, tk["cur"]), ref_eff_cancelled(prev, pk["cur"])
             if c1 and c0 and not (snap["scopes"][c1]["host"] and prev["scopes"][c0]["host"]):
                 # the cancelled scope was left (CancelScope.__exit__ called on it, e.g. on a group's scope while
